@@ -123,6 +123,44 @@ def _install_capture():
     N.on_block, N.on_mempool, N.start = on_block, on_mempool, start
 
 
+class FakeSOCKSProxy:
+    """Stands in for aiorpcx.SOCKSProxy (the SOCKS wire protocol needs real sockets): detection
+    answers what the world says, connections go through the simulated network."""
+
+    def __init__(self, world, address):
+        from aiorpcx import NetAddress
+        self.world = world
+        self.address = NetAddress(address[0], address[1])
+        self.peername = address
+
+    def __str__(self):
+        return f'fake SOCKS proxy at {self.address}'
+
+    async def create_connection(self, protocol_factory, host, port, *, resolve=False, ssl=None,
+                                family=0, proto=0, flags=0):
+        from aiorpcx import NetAddress
+        proxy = self
+
+        def factory():
+            protocol = protocol_factory()
+            protocol._proxy = proxy
+            protocol._remote_address = NetAddress(host, port)
+            return protocol
+        return await self.world.net.create_connection(factory, host, port, via_proxy=True, ssl=ssl)
+
+
+def _make_socks_class(world):
+    class SOCKSProxy:
+        @classmethod
+        async def auto_detect_at_host(cls, host, ports, auth):
+            await asyncio.sleep(world.sim.ch.delay(0.001, 0.5))
+            if world.tor_proxy_port is not None and world.tor_proxy_port in ports:
+                return FakeSOCKSProxy(world, (str(host) if str(host) != 'localhost' else '127.0.0.1',
+                                              world.tor_proxy_port))
+            return None
+    return SOCKSProxy
+
+
 class Server:
     """One incarnation of the server process."""
 
@@ -144,7 +182,7 @@ DEFAULT_KNOBS = dict(
     max_send=1_000_000, preempt=True, stall_p=0.0, line_p=0.0, loop_seam_p=0.0,
     daemon_latency=(0.0005, 0.05), net_latency=(0.001, 0.05), fault_rate=0.0,
     orphans_return=True, txindex=True, urls=1, resegment=True, max_hist_row=None,
-    services='tcp://:50001,rpc://:8000', peer_discovery='off', session_timeout=10_000_000,
+    services='tcp://:50001,rpc://:8000', peer_discovery='off', tor_proxy_port=None, session_timeout=10_000_000,
     request_timeout=30, cost_limits=(0, 0), extra_env=None,
 )
 
@@ -177,6 +215,7 @@ class World:
         self._run_id = 0
         self.server_exits = []
         self.on_start = []       # callbacks(world) run after each server start
+        self.tor_proxy_port = k.get('tor_proxy_port')      # None = no Tor proxy reachable
         self.on_end = []         # callbacks(world) run when a server incarnation is gone
         _install_capture()
 
@@ -215,6 +254,7 @@ class World:
         self.sim.epoch += 1
         seams.install_storage(self)
         dmod.aiohttp = self.dnet.shim()
+        peersmod.SOCKSProxy = _make_socks_class(self)
         self._reset_process_globals()
 
     def make_env(self):
